@@ -249,6 +249,27 @@ pub fn run(tier: Tier, replay: Option<Value>) -> ! {
                 hs.push((format!("HOME=/vhome; x='v w'; nl=$'q\\n'; sp='  s  '\n{}\necho \"end=$?\"\n", c.replace('W', w)), vec!["herestring".to_string(), format!("word:{wn}"), format!("consumer:{cn}")]));
             }
         }
+        // body sizes on both sides of the default pipe capacity (64 KiB) and of the largest size a pipe can be
+        // given (1 MiB): the body must arrive whole whether or not it fits into a pipe, and a consumer that
+        // reads little or nothing must not hang the shell
+        let big_consumers: &[(&str, &str)] = &[
+            ("external", "vcat R | vcons"),
+            ("read-lines", "n=0; while IFS= read -r l; do n=$((n+1)); done R; echo \"lines=$n\""),
+            ("function", "hf() { vcons; }; hf R"),
+            ("first-line", "read -r first R; echo \"first=$first\""),
+            ("not-read", "vtrue R"),
+            ("external-first-line", "vhead 1 R"),
+        ];
+        for n in [65536usize, 65537, 1048576, 1048577, 1048578, 3 << 20] {
+            for (fname, form, body) in [("herestring", "<<<\"$P\"", ""), ("heredoc", "<<EOF", "$P\nEOF\n")] {
+                for (cn, c) in big_consumers {
+                    if tier == Tier::Quick && n == 3 << 20 && *cn != "external" {
+                        continue;
+                    }
+                    hs.push((format!("P=$(vprod {n})\n{}\n{body}echo \"end=$?\"\n", c.replace('R', form)), vec!["big-body".to_string(), format!("form:{fname}"), format!("size:{n}"), format!("consumer:{cn}")]));
+                }
+            }
+        }
         let scripts: Vec<String> = hs.iter().map(|h| h.0.clone()).collect();
         let jb: Vec<Value> = scripts.iter().map(|s| json!({"s": format!("set -f\n{s}"), "mode": "file"})).collect();
         let bb = common::run_scripts(&jb, 20_000);
@@ -269,7 +290,7 @@ pub fn run(tier: Tier, replay: Option<Value>) -> ! {
         rep.set("herestring_cases", scripts.len() as u64);
     }
     rep.rule = format!(
-        "(A) all redirection lists of <= {} items over {:?} attached to {} command kinds (builtin, external, function, group, subshell, loop, eval) with pre-existing files f, g and fd 9, with/without noclobber; (B) all here-document bodies of <= {} lines over {:?} x 5 delimiter forms x <</<<- x 6 placements (incl. two documents on one line with the same and with different operators); (C) here-strings: 17 words (trailing newlines, blanks, glob/tilde/brace characters, substitutions) x 7 consumers; distinct = tag set of the case",
+        "(A) all redirection lists of <= {} items over {:?} attached to {} command kinds (builtin, external, function, group, subshell, loop, eval) with pre-existing files f, g and fd 9, with/without noclobber; (B) all here-document bodies of <= {} lines over {:?} x 5 delimiter forms x <</<<- x 6 placements (incl. two documents on one line with the same and with different operators); (C) here-strings: 17 words (trailing newlines, blanks, glob/tilde/brace characters, substitutions) x 7 consumers, and here-string / here-document bodies that arrive as 65536, 65537, 1048576, 1048577, 1048578 and 3145728 bytes (either side of the 64 KiB default pipe capacity and of the 1 MiB pipe size limit) x 6 consumers (external, read loop, function, first line only, never read, external first line); distinct = tag set of the case",
         tier.pick(2, 3),
         ITEMS,
         KINDS.len(),
